@@ -5,6 +5,7 @@ use crate::ast::{
 };
 use crate::scheme::error::CompileError;
 use crate::scheme::manager::SchemeManager;
+use crate::scheme::{escape_format, escape_string};
 use crate::{Mode, SFlag};
 
 #[cfg(target_arch = "wasm32")]
@@ -110,8 +111,10 @@ fn compile_perm_check(buffer: &mut String, check: &PermCheck) {
 fn literal(special: &FormatSpecial) -> CResult<String> {
     Ok(match special {
         FormatSpecial::Alarm => "\\a".to_string(),
-        FormatSpecial::Ascii(val) => format!("{}", char::from_u32(*val as u32).unwrap_or('0')),
-        FormatSpecial::Backslash => "\\".to_string(),
+        FormatSpecial::Ascii(val) => {
+            escape_format(&char::from_u32(*val as u32).unwrap_or('0').to_string())
+        }
+        FormatSpecial::Backslash => "\\\\".to_string(),
         FormatSpecial::Backspace => "\\b".to_string(),
         FormatSpecial::CarriageReturn => "\\r".to_string(),
         // Stopping the output mid-format has no equivalent in the generated code
@@ -208,21 +211,23 @@ fn snippet(field: &FormatField) -> CResult<Option<String>> {
 
         FormatField::AccessFormatted(f) => match f {
             '@' => "atime".to_string(),
-            f => format!("strftime \"%{f}\" (localtime (atime))"),
+            f => format!("strftime \"%{}\" (localtime (atime))", escape_string(&f.to_string())),
         }
         .to_string(),
 
         FormatField::ChangeFormatted(f) => match f {
             '@' => "ctime".to_string(),
-            f => format!("strftime \"%{f}\" (localtime (ctime))"),
+            f => format!("strftime \"%{}\" (localtime (ctime))", escape_string(&f.to_string())),
         },
 
         FormatField::ModifyFormatted(f) => match f {
             '@' => "mtime".to_string(),
-            f => format!("strftime \"%{f}\" (localtime (mtime))"),
+            f => format!("strftime \"%{}\" (localtime (mtime))", escape_string(&f.to_string())),
         },
 
-        FormatField::XAttr(attr) => format!("or (xattr-ref-string \"{attr}\") \"\"").to_owned(),
+        FormatField::XAttr(attr) => {
+            format!("or (xattr-ref-string \"{}\") \"\"", escape_string(attr))
+        }
 
         FormatField::Depth
         | FormatField::DeviceNumber
@@ -243,7 +248,7 @@ impl TargetScheme for Vec<FormatElement> {
         let template = self
             .iter()
             .map(|el| match el {
-                FormatElement::Literal(s) => Ok(s.clone()),
+                FormatElement::Literal(s) => Ok(escape_format(s)),
                 FormatElement::Field(f) => placeholder(f).map(|s| s.to_string()),
                 FormatElement::Special(v) => literal(v),
             })
@@ -287,7 +292,7 @@ impl TargetScheme for Test {
             Test::Name(s) => buffer.push_str(&format!("(call-with-name {})", ctx.get_matcher(s, false))),
             Test::Path(s) => buffer.push_str(&format!("(call-with-relative-path {})", ctx.get_matcher(s, false))),
             Test::Perm(check) => compile_perm_check(buffer, check),
-            Test::Pool(pool_name) => buffer.push_str(&format!("(member \"{pool_name}\" (lov-pools))")),
+            Test::Pool(pool_name) => buffer.push_str(&format!("(member \"{}\" (lov-pools))", escape_string(pool_name))),
             Test::Readable => buffer.push_str("(readable)"),
             Test::Size(cmp) => compile_size_comp(buffer, &cmp),
             Test::StripeCount(cmp) => buffer.push_str(&format_cmp!(cmp, "lov-stripe-count")),
@@ -295,10 +300,12 @@ impl TargetScheme for Test {
             Test::Type(list) => compile_type_list_comp(buffer, list),
             Test::UserId(cmp) => buffer.push_str(&format_cmp!(cmp, "uid")),
             Test::Writable => buffer.push_str("(writable)"),
-            Test::Xattr(field) => buffer.push_str(&format!("(xattr? \"{field}\")")),
+            Test::Xattr(field) => buffer.push_str(&format!("(xattr? \"{}\")", escape_string(field))),
             Test::XattrMatch(field, value) => {
                 let offending = |c:char| {"*?['".contains(c)};
-                if !(field.contains(offending) || value.contains(offending)) {
+                let plain = !(field.contains(offending) || value.contains(offending));
+                let (field, value) = (escape_string(field), escape_string(value));
+                if plain {
                     buffer.push_str(&format!("(equal? (xattr-ref-string \"{field}\") \"{value}\")"));
                 } else {
                     buffer.push_str(&format!("(xattr-match? \"{field}\" \"{value}\")"));
